@@ -1,4 +1,5 @@
 CONSTANT MaxLen = 3
+CONSTANT Alphabet <- Syms
 SPECIFICATION Spec
 INVARIANT QuoteIsLossless
 CHECK_DEADLOCK FALSE
